@@ -15,7 +15,11 @@
    - records are (id, expired?) pairs, provider entries are (peer, address ids);
    - FindNodeContext::next_action follows the REPAIRED code (fix F-C15a): the counter
      `pending_responses` is recomputed as the number of pending peers that have not exceeded
-     the peer timeout, instead of being decremented again for every stale peer on every call. *)
+     the peer timeout, instead of being decremented again for every stale peer on every call;
+   - GetRecordContext follows the repaired code (fix F-C15b): `found_records` starts at 0 — a
+     local record is counted once, through `known_records` — and GetProvidersContext follows
+     the repaired code (fix F-C15c): the lookup fails only when neither the local store nor the
+     network produced a provider. *)
 From Coq Require Import List NArith Bool.
 Import ListNotations.
 Open Scope N_scope.
@@ -141,8 +145,7 @@ Definition merge_providers (c : cfg) (l : list (N * list N)) : list (N * list N)
 
 (* ---- state updates ---- *)
 Definition init (c : cfg) (seeds : list N) : state :=
-  mkSt (fold_left (fun acc p => cins (c_dist c p) p acc) seeds []) [] [] [] 0
-       (match c_kind c with KRecord => c_known c | _ => 0 end) [] [] false.
+  mkSt (fold_left (fun acc p => cins (c_dist c p) p acc) seeds []) [] [] [] 0 0 [] [] false.
 
 Definition finish (s : state) (a : action) : state * action :=
   (mkSt (cands s) (pend s) (queried s) (resps s) (pr s) (found s) (recq s) (provs s) true, a).
@@ -193,7 +196,7 @@ Definition next_record (c : cfg) (s : state) (now : N) : state * action :=
 
 Definition next_providers (c : cfg) (s : state) (now : N) : state * action :=
   if is_done s then
-    match provs s with
+    match c_kprov c ++ provs s with
     | [] => finish s AFailed
     | _ => finish s (AProvDone (merge_providers c (c_kprov c ++ provs s)))
     end
@@ -457,3 +460,83 @@ Fixpoint mrun (eng : engine) (ms : list mevent) : engine * list (nat * event) :=
 (* the events that reached query i, in order *)
 Definition events_of (i : nat) (lg : list (nat * event)) : list event :=
   map snd (filter (fun x => Nat.eqb (fst x) i) lg).
+
+(* ---- "exactly the k closest of the peers in `ans`" ---- *)
+Definition kclosest (c : cfg) (k : N) (ans l : list N) : Prop :=
+  (forall p, In p l -> In p ans) /\
+  dsorted c l /\
+  N.of_nat (length l) <= k /\
+  (forall q, In q ans -> ~ In q l ->
+     N.of_nat (length l) = k /\ forall w, In w l -> c_dist c w < c_dist c q).
+
+(* nothing is outstanding and every peer the lookup learned of (except itself) was contacted *)
+Definition exhausted_at (c : cfg) (s : state) (g : ghost) : Prop :=
+  pend s = [] /\ forall p, In p (g_known g) -> p <> c_local c -> In p (g_sent g).
+
+(* ---- isolation of queries: the counter `pr` is write-before-read ---- *)
+(* equal up to FindNodeContext::pending_responses *)
+Definition peq (s s' : state) : Prop :=
+  cands s' = cands s /\ pend s' = pend s /\ queried s' = queried s /\ resps s' = resps s /\
+  found s' = found s /\ recq s' = recq s /\ provs s' = provs s /\ done s' = done s.
+
+(* the events of a history that matter: polls that returned nothing are dropped *)
+Fixpoint essential (c : cfg) (s : state) (es : list event) : list event :=
+  match es with
+  | [] => []
+  | e :: t =>
+      let '(s1, a) := step c s e in
+      match e, a with
+      | ENext _, ANone => essential c s1 t
+      | _, _ => e :: essential c s1 t
+      end
+  end.
+
+Definition visible (l : list action) : list action :=
+  filter (fun a => match a with ANone => false | _ => true end) l.
+
+(* ---- the timed closed loop: engine + request timeouts + an arbitrary (possibly silent) network ---- *)
+(* The executor layer around the engine (executor.rs: READ_TIMEOUT / WRITE_TIMEOUT) fails a request
+   that has been outstanding for more than T time units; that is the only thing that is assumed
+   about the network. Time advances in ticks of one unit. Per tick: the engine is polled until it
+   has nothing to do, the network delivers whatever it likes (answers with arbitrary content,
+   failures, nothing at all), the clock advances, and the requests older than T are failed. *)
+Definition expired (T now : N) (x : N * N) : bool := T <? now - snd x.
+Definition expire_events (T now : N) (pd : list (N * N)) : list event :=
+  map (fun x => EFail (fst x)) (filter (expired T now) pd).
+
+Fixpoint poll_events (fuel : nat) (c : cfg) (s : state) (now : N) : list event :=
+  match fuel with
+  | O => []
+  | S f =>
+      if done s then []
+      else ENext now :: match snd (next_action c s now) with
+                        | ANone => []
+                        | _ => poll_events f c (fst (next_action c s now)) now
+                        end
+  end.
+
+Record tenv := mkTenv { t_net : N -> state -> list (N * option reply) }.
+
+Definition net_event (x : N * option reply) : event :=
+  match snd x with Some r => EResp (fst x) r | None => EFail (fst x) end.
+
+Fixpoint tdrive (ticks pf : nat) (c : cfg) (E : tenv) (T now : N) (s : state) : list event :=
+  match ticks with
+  | O => []
+  | S k =>
+      if done s then []
+      else
+        let ep := poll_events pf c s now in
+        let s1 := fst (run c s ep) in
+        if done s1 then ep
+        else
+          let en := map net_event (t_net E now s1) in
+          let s2 := fst (run c s1 en) in
+          let ex := expire_events T (now + 1) (pend s2) in
+          let s3 := fst (run c s2 ex) in
+          ep ++ en ++ ex ++ tdrive k pf c E T (now + 1) s3
+  end.
+
+(* the only requirement on the network: the peers it mentions come from the universe U *)
+Definition net_in (U : list N) (E : tenv) : Prop :=
+  forall now s x r, In x (t_net E now s) -> snd x = Some r -> forall q, In q (r_peers r) -> In q U.
